@@ -186,7 +186,7 @@ ALL_CLAUSES = ["Balance", "JunctionPass", "Global", "NonNeg", "Finite", "NoOverd
 CLAUSES = {
     "C01": ["Balance", "JunctionPass", "Global", "FlushConserves"],
     "C02": ["NonNeg", "Finite", "NoOverdraw", "Ratio", "NegZero"],
-    "C03": ["ConvertRel", "ResolveRel"],
+    "C03": ["ConvertRel", "ResolveRel", "Balance"],  # (the stock update is part of "every compartment trajectory")
     "C04": ["JEmpty", "JSplit", "JunctionPass", "FlushConserves"],
     "C05": ["Rows", "ShiftRel", "FlushAll", "Bound", "NotEarly"],
 }
